@@ -182,7 +182,7 @@ func verifPartialOpsAlg(kind string, v primitive.ProtocolVersion, alg int) {
 		nd.Assert(bytes.Equal(out.Bytes(), b), "ConvertToRawFrame+EncodeRawFrame emits the bytes of EncodeFrame")
 	}
 	// (3) header then body / raw body / discard, seekable and non-seekable sources
-	for mode := 0; mode < 5; mode++ {
+	for mode := 0; mode < 6; mode++ {
 		var rd interface {
 			Read([]byte) (int, error)
 			Len() int
@@ -207,7 +207,7 @@ func verifPartialOpsAlg(kind string, v primitive.ProtocolVersion, alg int) {
 			rb, err = c.DecodeRawBody(h, rd)
 			nd.Assert(err == nil, "DecodeRawBody succeeds")
 			nd.Assert(bytes.Equal(rb, b[hl:]), "DecodeRawBody returns the encoded body")
-		case 4:
+		case 4, 5:
 			var body *Body
 			body, err = c.DecodeBody(h, rd)
 			nd.Assert(err == nil, "DecodeBody succeeds")
@@ -246,10 +246,32 @@ func verifReencode(v primitive.ProtocolVersion, n int) {
 		nd.Assert(true, "not re-encodable")
 		return
 	}
+	enc := append([]byte{}, buf.Bytes()...)
+	hl := v.FrameHeaderLengthInBytes()
+	nd.Assert(int(g.Header.BodyLength) == len(enc)-hl, "re-encoded frame: declared body length equals emitted body bytes")
 	g2, err := c.DecodeFrame(buf)
 	nd.Assert(err == nil, "re-encoded bytes decode")
 	if err == nil {
 		verifEq_PFrame("reencode", g, g2)
+	}
+	// the raw path agrees with the full codec on these (possibly non-canonical) frames too
+	src := bytes.NewBuffer(append(append([]byte{}, enc...), 0xAA, 0xBB))
+	raw, err := c.DecodeRawFrame(src)
+	nd.Assert(err == nil, "re-encoded bytes decode as a raw frame")
+	if err == nil {
+		nd.Assert(src.Len() == 2, "raw decoding of the re-encoded frame consumes exactly the frame")
+		g3, err := c.ConvertFromRawFrame(raw)
+		nd.Assert(err == nil, "raw re-encoded frame converts")
+		if err == nil {
+			verifEq_PFrame("reencode-raw", g, g3)
+		}
+	}
+	rd := bytes.NewReader(append(append([]byte{}, enc...), 0xAA, 0xBB))
+	h, err := c.DecodeHeader(rd)
+	nd.Assert(err == nil, "re-encoded header decodes")
+	if err == nil {
+		nd.Assert(c.DiscardBody(h, rd) == nil, "DiscardBody on the re-encoded frame succeeds")
+		nd.Assert(rd.Len() == 2, "DiscardBody on the re-encoded frame stops exactly at the next frame")
 	}
 }
 
